@@ -798,6 +798,25 @@ func (x *vc) stdlibModel(fr *frame, st *state, callee *ssa.Function, args []Val,
 		return r, true
 	case "strings.ToUpper", "strings.ToLower", "strings.TrimSpace", "strings.Trim", "strings.TrimLeft", "strings.TrimRight", "strings.TrimPrefix", "strings.TrimSuffix", "strings.Replace", "strings.ReplaceAll", "strings.Join", "strings.Title":
 		return x.freshVal("str", resT, st), true
+	case "(*regexp.Regexp).FindAllStringSubmatchIndex":
+		// documented result shape: one []int per match, of even length >= 2 (pairs of byte offsets into s: the match, then
+		// each capture group); a pair is -1,-1 for a group that did not take part, else 0 <= start <= end <= len(s)
+		x.trusted["regexp.FindAllStringSubmatchIndex: result shape as documented (even-length index slices, pairs -1,-1 or 0<=start<=end<=len(s))"] = true
+		r := x.freshVal("submatchidx", resT, st)
+		if len(args) == 3 {
+			s := args[1].T
+			outer, osrt := x.elemArr(st, resT.Underlying().(*types.Slice).Elem())
+			inner, isrt := x.elemArr(st, types.NewSlice(types.Typ[types.Int]).Elem())
+			oa, ia := x.heapArr(st, outer, osrt), x.heapArr(st, inner, isrt)
+			q := fmt.Sprintf("(select (select %s (sl_arr %s)) (+ (sl_off %s) m))", oa, r.T, r.T)
+			el := func(k string) string {
+				return fmt.Sprintf("(select (select %s (sl_arr %s)) (+ (sl_off %s) %s))", ia, q, q, k)
+			}
+			x.assume(st.guard, fmt.Sprintf("(forall ((m Int)) (! (=> (and (<= 0 m) (< m (sl_len %s))) (and (>= (sl_len %s) 2) (= (mod (sl_len %s) 2) 0) (> (sl_arr %s) 0) (<= (sl_len %s) (sl_cap %s)) (>= (sl_off %s) 0))) :pattern (%s)))", r.T, q, q, q, q, q, q, q))
+			x.assume(st.guard, fmt.Sprintf("(forall ((m Int) (j Int)) (! (=> (and (<= 0 m) (< m (sl_len %s)) (<= 0 j) (< (+ (* 2 j) 1) (sl_len %s))) (or (and (= %s (- 1)) (= %s (- 1))) (and (<= 0 %s) (<= %s %s) (<= %s (slen %s))))) :pattern (%s)))",
+				r.T, q, el("(* 2 j)"), el("(+ (* 2 j) 1)"), el("(* 2 j)"), el("(* 2 j)"), el("(+ (* 2 j) 1)"), el("(+ (* 2 j) 1)"), s, el("(* 2 j)")))
+		}
+		return r, true
 	case "strings.Split", "strings.SplitN", "strings.Fields":
 		r := x.freshVal("split", resT, st)
 		x.assume(st.guard, app(">", app("sl_arr", r.T), "0"))
